@@ -180,3 +180,35 @@ def skip_rule(chk, repo, clause):
            (not bad) if n else None,
            ('; '.join(sorted(set(bad))[:2]) + ': light that still lands inside the output is dropped') if bad else
            f'{n} non-transforming way(s) through the loop body, all guarded by the intersection test alone', f.loc())
+
+
+def per_field_shift_rule(chk, repo, clause):
+    """Each field is displaced by its *own* tilts: the shift that places the window and the sub-pixel shift handed to the
+    transform come from `Field.shift` of the field of that iteration - not from one field of the list evaluated once."""
+    shape, prop = pair('shape'), pair('prop_shape')
+    wf = repo.cls('wavefront.Wavefront')
+    f, paths, _ = analyse(repo, 'propagate.propagate_dft', config={'shape': shape, 'prop_shape': prop, 'mask': NONE},
+                          types={('sym', 'wavefront'): wf})
+    ok, det, n = None, 'no Field.shift result reaches the transform', 0
+    for p in returns(paths):
+        for lp in p.state.loops:
+            for b in lp['states']:
+                for e in b.events[lp['n_pre_events']:]:
+                    if not (e.kind == 'call' and e.data.get('callee') == 'fourier.dft2'):
+                        continue
+                    sh = (e.data.get('bound') or {}).get('shift')
+                    if sh is None:
+                        continue
+                    calls = [a for a in nf.value_atoms(sh) if is_app(a, 'call:field.Field.shift')]
+                    for a in calls:
+                        n += 1
+                        who = bound_of(a).get('self')
+                        own = who is not None and any(x[0] == 'iter' for x in nf.value_atoms(who))
+                        if own:
+                            ok = True if ok is None else ok
+                        else:
+                            ok = False
+                            det = f'the shift handed to dft2 comes from {fmt(who)[:60]}.shift(...), evaluated once: every field is placed ' \
+                                  f'and sub-pixel shifted with the tilt of that one field'
+    chk.ob(clause, 'D-flow', 'propagate.propagate_dft', 'every field is shifted by its own tilts', ok,
+           det if ok is not True else f'{n} shift(s) taken from the field of the iteration', f.loc())
